@@ -73,7 +73,7 @@ def _final_len(I, lp=None):
     rets = I.all_effects(("RETURN",))
     if not ls or not rets:
         return None, None
-    idom = I.g.dominators()
+    idom = I.dominators()
     # last store on every path: a store that dominates all returns and is not followed by another store
     cands = [s for s in ls if all(I.g.dominates(idom, s.gid, r.gid) for r in rets)]
     if not cands:
@@ -450,6 +450,9 @@ def r_formula(ctx):
     # ------------------------------------------------------------------ capacity rows
     _capacity_rows(res, ctx, arms)
     _clone_row(res, ctx, arms)
+    _tempvalue_rows(res, ctx, ctors, ctor_by_adt)
+    _swap_rows(res, ctx, arms)
+    _bytes_ptr_rows(res, ctx, ctors, ctor_by_adt)
     _into_range_row(res, ctx, arms)
     _backend_growth_rows(res, ctx, arms)
     return res
@@ -513,7 +516,7 @@ def _before(I, a, b):
 
 
 def _reach(I, a, b):
-    return b.gid in I.g.reachable_from(a.gid)
+    return b.gid in I.reachable_from(a.gid)
 
 
 def _callee_of(ctx, entry, pred, res):
@@ -719,6 +722,23 @@ def _clone_row(res, ctx, arms):
             row.expect_eq("cloned count", c["n"], L0, c, "count")
             if c["fn"] != ("param", 2):
                 row.fail("clone function is not the one passed by the caller", c, "fn")
+        # room for LEN(source) elements is made before cloning: expand(needed - CAP) only under CAP < needed, needed = LEN(source)
+        rs = I.all_effects(("RESERVE",))
+        if len(rs) != 1:
+            row.fail("expected exactly one growth site for the new storage, found %d" % len(rs), sub="reserve")
+        else:
+            r = rs[0]
+            cap = as_poly(r["cap"])
+            needed = as_poly(r["n"]) + cap
+            lpd = len_path_of_mem(r["mem"])
+            if not (needed == L0 or implies(r["facts"], ("eq0", _canon(needed - L0)))):
+                row.fail("the new storage is grown to %s elements, expected LEN(source) = %s" % (needed, L0), r, "reserve-amount")
+            if not implies(r["facts"], cmp_fact("Lt", cap, L0)):
+                row.fail("the new storage is grown without / with the wrong capacity test (needs CAP < LEN(source)): fixed-capacity backends cannot expand, and a too-small "
+                         "fresh storage must be grown", r, "reserve-guard")
+            for c in cl:
+                if not before_in(I, r, c):
+                    row.fail("elements are cloned before room is made", c, "reserve-order")
         rets = I.all_effects(("RETURN",))
         tree = rets[0]["value"] if rets else None
         fm = dict(tree[1]) if isinstance(tree, tuple) and tree and tree[0] == "tree" else {}
@@ -869,3 +889,164 @@ def _backend_growth_rows(res, ctx, arms):
             if len(ent) != 1 or as_poly(ent[0]["args"][1]) != Poly.atom(("param", 3)):
                 row.fail("with_capacity must resize the fresh storage to exactly the requested capacity")
             row.done()
+
+
+# ---------------------------------------------------------------------------------------------------- TempValue<Op>: drop / move_into finish the removal
+
+def _tempvalue_rows(res, ctx, ctors, ctor_by_adt):
+    from .bounds import handle_roles
+    fx = ctx.fx
+    roles_all = handle_roles(ctx)
+    targets = []
+    for im in fx.impls:
+        if im["self_ty"].get("path") != "ops::temp::TempValue":
+            continue
+        for it in im["items"]:
+            if im.get("trait") == "core::ops::Drop" and it["name"] == "drop":
+                targets.append(("drop", it["path"], "P"))
+            if im.get("trait") == "any_value::AnyValueSizeless" and it["name"] == "move_into":
+                targets.append(("move_into", it["path"], "A"))
+    if len(targets) < 2:
+        res.coverage_lost("ops::temp::TempValue", "Drop / move_into of the removal handle not found")
+    for what, p, rootk in targets:
+        for im in fx.impls_of("ops::temp::Operation"):
+            adt = im["self_ty"].get("path")
+            name = adt.split("::")[-1]
+            roles = roles_all.get(adt, {})
+            nidx = ctors.get(ctor_by_adt.get(adt), (None, None))[1]
+            for tt, I in ctx.arms(p, subst={"Op": im["self_ty"]}) or []:
+                row = Row(res, ctx, "TempValue::%s:%s" % (what, name), p, tt, I)
+                st, fl = _final_len(I)
+                if nidx == 0:
+                    if len_stores(I):
+                        row.fail("pop must not change the length again when its handle is consumed")
+                else:
+                    lk = roles.get("last_index", [None])[0]
+                    if lk is None:
+                        row.fail("the handle does not record the last index")
+                    elif fl is None:
+                        row.fail("the removal is not completed on every normal path: no length update dominates the return (elements after the index stay hidden "
+                                 "or the gap stays open)", sub="completes")
+                    else:
+                        ats = [a for a in fl.atoms() if isinstance(a, tuple) and a[0] == "init" and a[1][1][-len(lk) - 1:] == ("op",) + tuple(lk)]
+                        if not ats or fl != Poly.atom(ats[0]):
+                            row.fail("final length is %s, expected the recorded last index" % fl, st, "len")
+                    if "element" not in roles and not shifts(I):
+                        row.fail("the tail is not shifted over the removed slot", sub="shift")
+                if what == "drop":
+                    ds = I.all_effects(("DESTROY",))
+                    if not ds:
+                        row.fail("the element is not destroyed when its handle is dropped", sub="destroy")
+                    else:
+                        rets = I.all_effects(("RETURN",))
+                        # typed arm: unconditional; erased arm: under Some(drop_fn)
+                        pass
+                else:
+                    cps = I.all_effects(("COPY",))
+                    outs = [c for c in cps if ptr_parts(c["dst"]) and isinstance(ptr_parts(c["dst"])[0], tuple) and ptr_parts(c["dst"])[0][0] == "param"]
+                    if not outs:
+                        row.fail("the value bytes are not copied to the destination", sub="copy-out")
+                    elif not all(any(before_in(I, c, r) for c in outs) for r in I.all_effects(("RETURN",))):
+                        row.fail("a path through move_into returns without copying the value out", outs[0], "copy-out")
+                row.done()
+
+
+# ---------------------------------------------------------------------------------------------------- swap_unchecked: three dispatch arms
+
+def _swap_rows(res, ctx, arms):
+    p = "any_value::AnyValueTypelessMut::swap_unchecked"
+    for tt, I in arms(p):
+        row = Row(res, ctx, "swap_unchecked", p, tt, I)
+        sw = I.all_effects(("SWAP",))
+        casts = I.all_effects(("UNCHECKED_CAST",))
+        unk = [e for e in I.all_effects(("UNKNOWN",))]
+        keys = sorted(tt)
+        self_erased = tt.get("<Self as any_value::AnyValueSizeless>::Type")
+        other_erased = tt.get("<Other as any_value::AnyValueSizeless>::Type")
+        if len(sw) != 1:
+            row.fail("expected exactly one swap primitive, found %d (%s)" % (len(sw), [u["what"] for u in unk][:2]))
+            row.done()
+            continue
+        s = sw[0]
+        if self_erased and other_erased:
+            a, b = ptr_parts(s["a"]), ptr_parts(s["b"])
+            ok = s["prim"] == "swap_nonoverlapping" and s["ety"] == "u8" and a and b and a[0][0] == "VBYTES" and b[0][0] == "VBYTES" and a[0] != b[0] and not a[1].m and not b[1].m
+            if not ok:
+                row.fail("the erased arm must exchange the bytes of self and other with ptr::swap_nonoverlapping (got %s of %s and %s)" % (s["prim"], s["a"], s["b"]), s)
+            else:
+                n = as_poly(s["n"])
+                if [x[0] for x in n.atoms()] != ["VSIZE"] or len(n.m) != 1:
+                    row.fail("the erased arm must swap exactly size() bytes, swaps %s" % n, s, "count")
+                elif list(n.atoms())[0][1] != a[0][1]:
+                    row.fail("the byte count is not the size of the swapped value", s, "count")
+        else:
+            want_t = "<Self as any_value::AnyValueSizeless>::Type" if not self_erased else "<Other as any_value::AnyValueSizeless>::Type"
+            ok = s["prim"] == "mem::swap" and s["ety"] == want_t and len(casts) == 2 and all(c["to"] == want_t for c in casts) \
+                and len({repr(c["value"]) for c in casts}) == 2
+            if not ok:
+                row.fail("a typed arm must mem::swap the two values downcast to the statically known type %s (got %s::<%s>, casts to %s)"
+                         % (want_t, s["prim"], s["ety"], [c["to"] for c in casts]), s)
+        rets = I.all_effects(("RETURN",))
+        if not all(before_in(I, s, r) for r in rets):
+            row.fail("the swap primitive is executed only on some paths; the other paths exchange the values in a way this analysis cannot classify", s, "conditional")
+        extra = [e for e in I.all_effects(("RANGE_NEXT", "WRITE", "COPY", "READ")) if e is not s]
+        extra += [e for e in I.all_effects(("STORE",)) if e["path"][0][0] in ("M", "D")]
+        extra += [u for u in unk if "unaligned" in str(u["what"]) or "swap" in str(u["what"]).lower() or "copy" in str(u["what"]).lower()]
+        if extra:
+            row.fail("byte-level manipulation (%s at %s) besides the swap primitive: cannot be shown to exchange exactly the two values" % (extra[0].kind, extra[0].where()),
+                     extra[0], "unclassified")
+        row.done()
+
+
+# ---------------------------------------------------------------------------------------------------- mutable and shared byte pointers of a handle agree
+
+def _bytes_ptr_rows(res, ctx, ctors, ctor_by_adt):
+    fx = ctx.fx
+    pairs = []
+    for adt in ("ops::temp::TempValue", "element::ElementPointer", "any_value::wrapper::AnyValueWrapper", "any_value::raw::AnyValueRaw",
+                "any_value::raw::AnyValueTypelessRaw", "any_value::raw::AnyValueSizelessRaw"):
+        a = b = None
+        for im in fx.impls:
+            if im["self_ty"].get("path") != adt:
+                continue
+            for it in im["items"]:
+                if im.get("trait") == "any_value::AnyValueSizeless" and it["name"] == "as_bytes_ptr":
+                    a = it["path"]
+                if im.get("trait") == "any_value::AnyValueSizelessMut" and it["name"] == "as_bytes_mut_ptr":
+                    b = it["path"]
+        if a and b:
+            pairs.append((adt, a, b))
+    if len(pairs) < 5:
+        res.coverage_lost("any_value", "expected >= 5 value kinds with shared and mutable byte pointers, found %d" % len(pairs))
+    for adt, a, b in pairs:
+        substs = [None]
+        if adt == "ops::temp::TempValue":
+            substs = [{"Op": im["self_ty"]} for im in fx.impls_of("ops::temp::Operation")]
+        for sb in substs:
+            ra = ctx.arms(a, subst=sb) or []
+            rb = ctx.arms(b, subst=sb) or []
+            for (tta, Ia), (ttb, Ib) in zip(ra, rb):
+                label = adt.split("::")[-1] + ((":" + sb["Op"]["path"].split("::")[-1]) if sb else "")
+                row = Row(res, ctx, "bytes-ptr-agree:" + label, b, tta, Ia)
+                va = [e["value"] for e in Ia.all_effects(("RETURN",))]
+                vb = [e["value"] for e in Ib.all_effects(("RETURN",))]
+
+                def norm(v):
+                    pp = ptr_parts(v)
+                    if pp:
+                        return ("ptr", _unver(pp[0]), pp[1])
+                    return _strip_root(v)
+                if not va or not vb or norm(va[0]) != norm(vb[0]):
+                    row.fail("as_bytes_mut_ptr addresses %s while as_bytes_ptr addresses %s: a mutation through the handle goes to a different element"
+                             % (vb[0] if vb else None, va[0] if va else None))
+                row.done()
+
+
+def _unver(base):
+    if isinstance(base, tuple) and base and base[0] == "BASE":
+        return ("BASE", base[1])
+    return base
+
+
+def _strip_root(v):
+    return v
